@@ -939,10 +939,13 @@ impl endpoint::Session for Session {
         #[cfg(feature = "log")]
         log::trace!("RECV frame = {:?}", detach);
         // Remove the link by input handle
-        match self
-            .link_by_input_handle
-            .remove(&InputHandle::from(detach.handle.clone()))
-        {
+        let input_handle = InputHandle::from(detach.handle.clone());
+        // The delivery-ids of this attachment end with it: a disposition that still names one
+        // of them must not find the link that takes over the handle number (every link
+        // numbers its delivery-tags from zero)
+        self.delivery_tag_by_id
+            .retain(|_, (handle, _)| handle != &input_handle);
+        match self.link_by_input_handle.remove(&input_handle) {
             Some(mut link) => {
                 // The link endpoint may already have been dropped without an explicit
                 // close handshake (e.g. a `Sender`/`Receiver` that was simply dropped).
